@@ -1,4 +1,5 @@
 ID = "C01"
+CLAIM = False  # work in progress: not yet in MANIFEST.json
 LEVEL = "other"
 COQ_TARGETS = ["Extract/ExtractCore.vo"]
 PROPS_FILES = []
